@@ -634,6 +634,14 @@ func c13Probes(r *kit.Run, interp *prolog.Interpreter, out *kit.SimWriter, sc *c
 	// a text whose load was aborted by the cancel defines nothing: the dynamic predicate it re-declares keeps its old clause.
 	// (If the text's last clause is visible the text had been committed before the cancel took effect.)
 	if loadEntry := strings.HasPrefix(sc.Entry, "exec-") || sc.Entry == "query-consult"; loadEntry {
+		// a predicate the text introduces is either there or unknown; anything else (a procedure left half-installed by an
+		// undo, say) means the interpreter is not what it was
+		for _, pr := range []string{"pa(1)", "pb(1)"} {
+			if err := interp.QuerySolution(pr + ".").Err(); err != nil && !strings.Contains(kit.CanonErr(err), "existence_error(procedure") {
+				r.Fail("unusable-after-cancel", "predicate-of-the-text-unusable", "after the call, %s ends with %s (neither defined nor unknown)", pr, kit.CanonErr(err))
+				return
+			}
+		}
 		committed := interp.QuerySolution("catch(pb(1), _, fail).").Err() == nil
 		want := "L=[old] X=_A"
 		if committed {
